@@ -1,21 +1,23 @@
 (* C10/Spec.v — the reference IRC server (the specification side).  Executable,
-   no proofs.  The server keeps the truth: connected users (nick, user, host)
-   with fold-unique nicks, channels with members and their o/h/v flags, topic,
-   modes, ban list, creation time.  [step] applies one action and returns the
-   messages a conformant server sends to ONE observer (the bot, [s_me]).
-   Actions that the server would refuse (unknown user, nick in use, not on
-   channel, ...) change nothing and emit nothing, so every action list is a
-   conformant history.  [view] is what the bot is entitled to know. *)
+   no proofs.  The server keeps the truth in fold-keyed tables (nick -> user
+   record, channel -> members with o/h/v flags, topic, modes, ban list,
+   creation time); every question about it is a LOOKUP under IRC case rules.
+   [step] applies one action and returns the messages a conformant server
+   sends to ONE observer (the bot, [s_me]).  Actions the server would refuse
+   (unknown user, nick in use, not on channel, ...) change nothing and emit
+   nothing, so every action list is a conformant history.  [view_*] is what
+   the bot is entitled to know.  A channel whose member table is empty is dead:
+   the next JOIN recreates it. *)
 From Coq Require Import List NArith ZArith Bool.
 Import ListNotations.
 Require Import Base.Wire Base.PyStr C10.Bot.
 Open Scope N_scope.
 
 Record suser := SUser { su_nick : str; su_user : str; su_host : str }.
-Record smember := SMember { sm_nick : str; sm_o : bool; sm_h : bool; sm_v : bool }.
-Record schan := SChan { sc_name : str; sc_members : list smember; sc_topic : str;
-                        sc_modes : list (N * option str); sc_bans : list str; sc_created : N }.
-Record srv := Srv { s_me : str; s_users : list suser; s_chans : list schan }.
+Record flags := Flags { f_o : bool; f_h : bool; f_v : bool }.
+Record schan := SChan { sc_members : list (str * flags); sc_topic : str;
+                        sc_modes : list (N * option str); sc_bans : iset; sc_created : N }.
+Record srv := Srv { s_me : str; s_users : list (str * suser); s_chans : list (str * schan) }.
 
 Inductive action :=
 | AConnect (n u h : str)
@@ -31,128 +33,159 @@ Inductive action :=
 | AWho (c : str)
 | AReset.
 
-Definition SERVER : str := [115; 114; 118].                       (* "srv" *)
+Definition SERVER : str := [105; 114; 99; 46; 115; 114; 118].     (* "irc.srv": a server name has a dot, a nick never *)
 Definition RESET : str := [82; 69; 83; 69; 84].                    (* pseudo-message: the driver reconnects *)
 Definition str_366 : str := [51; 54; 54].
 Definition EQS : str := [61].  Definition STAR : str := [42].
+Definition CREATED : N := 1000.
 
-(* ---- lookups ---- *)
-Fixpoint find_user (n : str) (us : list suser) : option suser :=
-  match us with [] => None | u :: r => if feq n (su_nick u) then Some u else find_user n r end.
-Fixpoint find_chan (c : str) (cs : list schan) : option schan :=
-  match cs with [] => None | x :: r => if feq c (sc_name x) then Some x else find_chan c r end.
-Fixpoint find_member (n : str) (ms : list smember) : option smember :=
-  match ms with [] => None | x :: r => if feq n (sm_nick x) then Some x else find_member n r end.
-Definition is_member (n : str) (ch : schan) : bool :=
-  match find_member n (sc_members ch) with Some _ => true | None => false end.
-Definition on_chan (s : srv) (n c : str) : bool :=
-  match find_chan c (s_chans s) with Some ch => is_member n ch | None => false end.
-Definition hostmask (u : suser) : str := joinHostmask (su_nick u) (su_user u) (su_host u).
-(* channels of the observer *)
-Definition my_chans (s : srv) : list schan := filter (is_member (s_me s)) (s_chans s).
-Definition visible (s : srv) (n : str) : bool := existsb (is_member n) (my_chans s).
-
-(* ---- updates ---- *)
-Definition put_chan (ch : schan) (cs : list schan) : list schan :=
-  match find_chan (sc_name ch) cs with
-  | Some _ => map (fun x => if feq (sc_name ch) (sc_name x) then ch else x) cs
-  | None => cs ++ [ch]
+(* ---- fold-keyed tables: update in place (key spelling kept), map over values ---- *)
+Fixpoint idict_upd {A} (k : str) (f : A -> A) (d : list (str * A)) : list (str * A) :=
+  match d with
+  | [] => []
+  | (k', v) :: d' => if feq k k' then (k', f v) :: d' else (k', v) :: idict_upd k f d'
   end.
-(* an empty channel ceases to exist *)
-Definition gc (cs : list schan) : list schan :=
-  filter (fun x => match sc_members x with [] => false | _ => true end) cs.
-Definition set_members ch ms := SChan (sc_name ch) ms (sc_topic ch) (sc_modes ch) (sc_bans ch) (sc_created ch).
-Definition del_member (n : str) (ch : schan) : schan :=
-  set_members ch (filter (fun x => negb (feq n (sm_nick x))) (sc_members ch)).
-Definition ren_member (o n : str) (ch : schan) : schan :=
-  set_members ch (map (fun x => if feq o (sm_nick x) then SMember n (sm_o x) (sm_h x) (sm_v x) else x)
-                      (sc_members ch)).
-Definition set_chans_s s cs := Srv (s_me s) (s_users s) cs.
+Definition vmap {A} (f : A -> A) (d : list (str * A)) : list (str * A) :=
+  map (fun kv => (fst kv, f (snd kv))) d.
+(* channel modes: letter -> optional parameter *)
+Fixpoint assoc (f : N) (m : list (N * option str)) : option (option str) :=
+  match m with [] => None | (k, v) :: r => if N.eqb f k then Some v else assoc f r end.
+Definition assoc_del (f : N) (m : list (N * option str)) : list (N * option str) :=
+  filter (fun kv => negb (N.eqb f (fst kv))) m.
+Definition assoc_set (f : N) (v : option str) (m : list (N * option str)) : list (N * option str) :=
+  assoc_del f m ++ [(f, v)].
 
-(* ---- NAMES / WHO / burst ---- *)
-Definition sigils (multiprefix : bool) (m : smember) : str :=
-  let l := (if sm_o m then [64] else []) ++ (if sm_h m then [37] else []) ++ (if sm_v m then [43] else []) in
+(* ---- questions ---- *)
+Definition noflags : flags := Flags false false false.
+Definition is_member (n : str) (ch : schan) : bool := idict_has n (sc_members ch).
+Definition mflag (p : flags -> bool) (n : str) (ch : schan) : bool :=
+  match idict_get n (sc_members ch) with Some f => p f | None => false end.
+Definition hostmask (u : suser) : str := joinHostmask (su_nick u) (su_user u) (su_host u).
+(* is the observer on channel c? *)
+Definition mych (s : srv) (c : str) : bool :=
+  match idict_get c (s_chans s) with Some ch => is_member (s_me s) ch | None => false end.
+Definition vis_in (s : srv) (n c : str) : bool :=
+  match idict_get c (s_chans s) with Some ch => is_member (s_me s) ch && is_member n ch | None => false end.
+(* does the observer share a channel with n? *)
+Definition visible (s : srv) (n : str) : bool := existsb (fun kc => vis_in s n (fst kc)) (s_chans s).
+
+Definition set_members ch ms := SChan ms (sc_topic ch) (sc_modes ch) (sc_bans ch) (sc_created ch).
+Definition set_topic_s ch t := SChan (sc_members ch) t (sc_modes ch) (sc_bans ch) (sc_created ch).
+Definition set_modes_s ch m := SChan (sc_members ch) (sc_topic ch) m (sc_bans ch) (sc_created ch).
+Definition set_bans_s ch b := SChan (sc_members ch) (sc_topic ch) (sc_modes ch) b (sc_created ch).
+Definition add_member (n : str) (ch : schan) : schan := set_members ch (idict_set n noflags (sc_members ch)).
+Definition del_member (n : str) (ch : schan) : schan := set_members ch (idict_del n (sc_members ch)).
+Definition ren_member (o n : str) (ch : schan) : schan :=
+  match idict_get o (sc_members ch) with
+  | Some f => set_members ch (idict_set n f (idict_del o (sc_members ch)))
+  | None => ch
+  end.
+Definition upd_flags (g : flags -> flags) (n : str) (ch : schan) : schan :=
+  set_members ch (idict_upd n g (sc_members ch)).
+Definition set_chans_s s cs := Srv (s_me s) (s_users s) cs.
+Definition fresh_chan (n : str) : schan := SChan [(n, Flags true false false)] [] [] [] CREATED.
+
+(* ---- NAMES / WHO / burst: every item is computed by lookup ---- *)
+Definition sigils (multiprefix : bool) (f : flags) : str :=
+  let l := (if f_o f then [64] else []) ++ (if f_h f then [37] else []) ++ (if f_v f then [43] else []) in
   if multiprefix then l else firstn 1 l.
-Definition names_item (s : srv) (mp uh : bool) (m : smember) : str :=
-  sigils mp m ++ (if uh then match find_user (sm_nick m) (s_users s) with
-                             | Some u => hostmask u | None => sm_nick m end
-                  else sm_nick m).
-Definition cflag (ch : schan) (f : N) : bool := existsb (fun kv => N.eqb (fst kv) f) (sc_modes ch).
-Definition msg_names (s : srv) (ch : schan) (mp uh : bool) : msg :=
-  Msg SERVER str_353 [s_me s; (if cflag ch 115 then [ATC] else if cflag ch 112 then STAR else EQS);
-                      sc_name ch; join [32] (map (names_item s mp uh) (sc_members ch))].
-Definition msgs_who (s : srv) (ch : schan) : list msg :=
-  flat_map (fun m => match find_user (sm_nick m) (s_users s) with
-                     | Some u => [Msg SERVER str_352 [s_me s; sc_name ch; su_user u; su_host u; SERVER;
+Definition member_flags (x : str) (ch : schan) : flags :=
+  match idict_get x (sc_members ch) with Some f => f | None => noflags end.
+Definition names_item (s : srv) (ch : schan) (mp uh : bool) (x : str) : str :=
+  sigils mp (member_flags x ch)
+  ++ (if uh then match idict_get x (s_users s) with Some u => hostmask u | None => x end else x).
+Definition has_mode (ch : schan) (f : N) : bool := match assoc f (sc_modes ch) with Some _ => true | None => false end.
+Definition msg_names (s : srv) (c : str) (ch : schan) (mp uh : bool) : msg :=
+  Msg SERVER str_353 [s_me s; (if has_mode ch 115 then [ATC] else if has_mode ch 112 then STAR else EQS);
+                      c; join [32] (map (names_item s ch mp uh) (map fst (sc_members ch)))].
+Definition msg_endnames (s : srv) (c : str) : msg := Msg SERVER str_366 [s_me s; c; [101; 110; 100]].
+Definition msgs_who (s : srv) (c : str) (ch : schan) : list msg :=
+  flat_map (fun x => match idict_get x (s_users s) with
+                     | Some u => [Msg SERVER str_352 [s_me s; c; su_user u; su_host u; SERVER;
                                                       su_nick u; [72]; [48; 32; 114]]]
-                     | None => [] end) (sc_members ch).
+                     | None => [] end) (map fst (sc_members ch)).
+Definition mode_value (ch : schan) (f : N) : option str :=
+  match assoc f (sc_modes ch) with Some v => v | None => None end.
 Definition modes_args (ch : schan) : list str :=
-  (PLUS :: map fst (sc_modes ch)) :: flat_map (fun kv => match snd kv with Some a => [a] | None => [] end) (sc_modes ch).
+  let letters := map fst (sc_modes ch) in
+  (PLUS :: letters) :: flat_map (fun f => match mode_value ch f with Some a => [a] | None => [] end) letters.
 (* what the bot receives when it joins: JOIN, topic, NAMES, then the replies to
    the MODE / MODE +b / WHO queries that Irc.doJoin sends *)
-Definition burst (s : srv) (me : suser) (ch : schan) (mp uh : bool) : list msg :=
-  [Msg (hostmask me) str_JOIN [sc_name ch]]
-  ++ (match sc_topic ch with [] => [] | t => [Msg SERVER str_332 [s_me s; sc_name ch; t]] end)
-  ++ [msg_names s ch mp uh; Msg SERVER str_366 [s_me s; sc_name ch; [101; 110; 100]]]
-  ++ [Msg SERVER str_324 (s_me s :: sc_name ch :: modes_args ch);
-      Msg SERVER str_329 [s_me s; sc_name ch; py_str_Z (Z.of_N (sc_created ch))]]
-  ++ map (fun b => Msg SERVER str_367 [s_me s; sc_name ch; b; SERVER; [49]]) (sc_bans ch)
-  ++ msgs_who s ch.
+Definition burst (s : srv) (me : suser) (c : str) (ch : schan) (mp uh : bool) : list msg :=
+  [Msg (hostmask me) str_JOIN [c]]
+  ++ (match sc_topic ch with [] => [] | t => [Msg SERVER str_332 [s_me s; c; t]] end)
+  ++ [msg_names s c ch mp uh; msg_endnames s c]
+  ++ [Msg SERVER str_324 (s_me s :: c :: modes_args ch);
+      Msg SERVER str_329 [s_me s; c; py_str_Z (Z.of_N (sc_created ch))]]
+  ++ map (fun b => Msg SERVER str_367 [s_me s; c; b; SERVER; [49]]) (sc_bans ch)
+  ++ msgs_who s c ch.
 
-(* ---- one action ---- *)
+(* ---- validity of names ---- *)
 Definition valid_name (n : str) : bool :=
   nonempty n && negb (existsb (fun c => ws c || mem c [BANG; ATC; COMMA; 58] || mem c gen.T10.SIGILS) n).
+Definition valid_nick (n : str) : bool := valid_name n && negb (mem 46 n).
+(* ident / host: anything without blanks, '!' and '@' *)
+Definition valid_uh (n : str) : bool :=
+  nonempty n && negb (existsb (fun c => ws c || mem c [BANG; ATC]) n).
 Definition valid_arg (a : str) : bool :=
   nonempty a && negb (existsb ws a) && negb (C03.Model.hd_is 58 a).
 Definition valid_chan (c : str) : bool :=
   C03.Model.isChannel c && negb (mem 58 c).
 
-Definition join1 (n : str) (acc : srv * list str) (c : str) : srv * list str :=
-  let '(s, seen) := acc in
-  if negb (valid_chan c) then acc else
-  match find_chan c (s_chans s) with
+(* ---- JOIN / PART of one channel; the bool says whether something happened ---- *)
+Definition join_chan (n c : str) (s : srv) : srv * bool :=
+  if negb (valid_chan c) then (s, false) else
+  let fresh := (set_chans_s s (idict_set c (fresh_chan n) (s_chans s)), true) in
+  match idict_get c (s_chans s) with
   | Some ch =>
-      if is_member n ch then acc
-      else (set_chans_s s (put_chan (set_members ch (sc_members ch ++ [SMember n false false false])) (s_chans s)),
-            seen ++ [sc_name ch])
-  | None => (set_chans_s s (s_chans s ++ [SChan c [SMember n true false false] [] [] [] (1000 + N.of_nat (length (s_chans s)))]), seen ++ [c])
+      match sc_members ch with
+      | [] => fresh
+      | _ => if is_member n ch then (s, false)
+             else (set_chans_s s (idict_upd c (add_member n) (s_chans s)), true)
+      end
+  | None => fresh
   end.
+Definition part_chan (n c : str) (s : srv) : srv * bool :=
+  if mem COMMA c then (s, false) else
+  match idict_get c (s_chans s) with
+  | Some ch => if is_member n ch then (set_chans_s s (idict_upd c (del_member n) (s_chans s)), true) else (s, false)
+  | None => (s, false)
+  end.
+(* another user's multi-target JOIN/PART: the channels the observer gets to hear about *)
+Definition join_other (n : str) (acc : srv * list str) (c : str) : srv * list str :=
+  let '(s, vis) := acc in
+  let '(s', j) := join_chan n c s in (s', if j && mych s c then vis ++ [c] else vis).
+Definition part_any (n : str) (acc : srv * list str) (c : str) : srv * list str :=
+  let '(s, vis) := acc in
+  let '(s', j) := part_chan n c s in (s', if j && mych s c then vis ++ [c] else vis).
+(* the observer's own JOIN: channel by channel, each with its burst *)
+Definition join_self (mp uh : bool) (u : suser) (acc : srv * list msg) (c : str) : srv * list msg :=
+  let '(s, ms) := acc in
+  let '(s', j) := join_chan (s_me s) c s in
+  if j then match idict_get c (s_chans s') with
+            | Some ch => (s', ms ++ burst s' u c ch mp uh)
+            | None => (s', ms)
+            end
+  else (s', ms).
 
-Definition part1 (n : str) (acc : srv * list str) (c : str) : srv * list str :=
-  let '(s, seen) := acc in
-  match find_chan c (s_chans s) with
-  | Some ch =>
-      if is_member n ch
-      then (set_chans_s s (gc (put_chan (del_member n ch) (s_chans s))),
-            if is_member (s_me s) ch then seen ++ [c] else seen)
-      else acc
-  | None => acc
-  end.
+Definition set_o (b : bool) (f : flags) := Flags b (f_h f) (f_v f).
+Definition set_h (b : bool) (f : flags) := Flags (f_o f) b (f_v f).
+Definition set_v (b : bool) (f : flags) := Flags (f_o f) (f_h f) b.
 
 Definition apply_mode (ch : schan) (chg : bool * N * option str) : schan :=
   let '(plus, f, arg) := chg in
-  let flag := fun (g : smember -> smember) n =>
-    set_members ch (map (fun x => if feq n (sm_nick x) then g x else x) (sc_members ch)) in
   match arg with
   | Some a =>
-      if N.eqb f O_ then flag (fun x => SMember (sm_nick x) plus (sm_h x) (sm_v x)) a
-      else if N.eqb f H_ then flag (fun x => SMember (sm_nick x) (sm_o x) plus (sm_v x)) a
-      else if N.eqb f V_ then flag (fun x => SMember (sm_nick x) (sm_o x) (sm_h x) plus) a
-      else if N.eqb f B_ then
-        SChan (sc_name ch) (sc_members ch) (sc_topic ch) (sc_modes ch)
-              (if plus then (if iset_mem a (sc_bans ch) then sc_bans ch else sc_bans ch ++ [a])
-               else filter (fun y => negb (feq a y)) (sc_bans ch)) (sc_created ch)
-      else
-        SChan (sc_name ch) (sc_members ch) (sc_topic ch)
-              (if plus then filter (fun kv => negb (N.eqb f (fst kv))) (sc_modes ch) ++ [(f, Some a)]
-               else filter (fun kv => negb (N.eqb f (fst kv))) (sc_modes ch)) (sc_bans ch) (sc_created ch)
-  | None =>
-      SChan (sc_name ch) (sc_members ch) (sc_topic ch)
-            (if plus then filter (fun kv => negb (N.eqb f (fst kv))) (sc_modes ch) ++ [(f, None)]
-             else filter (fun kv => negb (N.eqb f (fst kv))) (sc_modes ch)) (sc_bans ch) (sc_created ch)
+      if N.eqb f O_ then upd_flags (set_o plus) a ch
+      else if N.eqb f H_ then upd_flags (set_h plus) a ch
+      else if N.eqb f V_ then upd_flags (set_v plus) a ch
+      else if N.eqb f B_ then set_bans_s ch (if plus then iset_add a (sc_bans ch) else iset_discard a (sc_bans ch))
+      else set_modes_s ch (if plus then assoc_set f (Some a) (sc_modes ch) else assoc_del f (sc_modes ch))
+  | None => set_modes_s ch (if plus then assoc_set f None (sc_modes ch) else assoc_del f (sc_modes ch))
   end.
 (* a change the server accepts: o/h/v need a member, b/k a parameter, l a parameter when set,
    other letters are parameterless flags *)
+Definition FLAGS : list N := [110; 116; 115; 109; 105; 112].
 Definition mode_ok (ch : schan) (chg : bool * N * option str) : bool :=
   let '(plus, f, arg) := chg in
   match arg with
@@ -160,7 +193,7 @@ Definition mode_ok (ch : schan) (chg : bool * N * option str) : bool :=
       valid_arg a &&
       (if mem f [O_; H_; V_] then is_member a ch
        else N.eqb f B_ || N.eqb f 107 || (N.eqb f 108 && plus))
-  | None => mem f [110; 116; 115; 109; 105; 112] || (N.eqb f 108 && negb plus)
+  | None => mem f FLAGS || (N.eqb f 108 && negb plus)
   end.
 Fixpoint mode_string (chgs : list (bool * N * option str)) (last : option bool) : str :=
   match chgs with
@@ -169,138 +202,139 @@ Fixpoint mode_string (chgs : list (bool * N * option str)) (last : option bool) 
       (if match last with Some p => Bool.eqb p plus | None => false end then [] else [if plus then PLUS else MINUS])
       ++ [f] ++ mode_string r (Some plus)
   end.
+Definition mode_params (chgs : list (bool * N * option str)) : list str :=
+  flat_map (fun g => match snd g with Some a => [a] | None => [] end) chgs.
+
+Definition rename_user (o n : str) (us : list (str * suser)) : list (str * suser) :=
+  match idict_get o us with
+  | Some u => idict_set n (SUser n (su_user u) (su_host u)) (idict_del o us)
+  | None => us
+  end.
 
 Definition step (nick0 : str) (mp uh : bool) (s : srv) (a : action) : srv * list msg :=
   match a with
   | AConnect n u h =>
-      if valid_name n && valid_name u && valid_name h then
-        match find_user n (s_users s) with
+      if valid_nick n && valid_uh u && valid_uh h then
+        match idict_get n (s_users s) with
         | Some _ => (s, [])
-        | None => (Srv (s_me s) (s_users s ++ [SUser n u h]) (s_chans s), [])
+        | None => (Srv (s_me s) (idict_set n (SUser n u h) (s_users s)) (s_chans s), [])
         end
       else (s, [])
   | AJoin n chans =>
-      match find_user n (s_users s) with
+      match idict_get n (s_users s) with
       | None => (s, [])
       | Some u =>
-          let '(s', seen) := fold_left (join1 n) chans (s, []) in
-          if feq n (s_me s) then
-            (s', flat_map (fun c => match find_chan c (s_chans s') with
-                                    | Some ch => burst s' u ch mp uh | None => [] end) seen)
+          if feq n (s_me s) then fold_left (join_self mp uh u) chans (s, [])
           else
-            match filter (on_chan s' (s_me s)) seen with
+            let '(s', vis) := fold_left (join_other n) chans (s, []) in
+            match vis with
             | [] => (s', [])
-            | vis => (s', [Msg (hostmask u) str_JOIN [join [COMMA] vis]])
+            | _ => (s', [Msg (hostmask u) str_JOIN [join [COMMA] vis]])
             end
       end
   | APart n chans =>
-      match find_user n (s_users s) with
+      match idict_get n (s_users s) with
       | None => (s, [])
       | Some u =>
-          let '(s', seen) := fold_left (part1 n) chans (s, []) in
-          match seen with
+          let '(s', vis) := fold_left (part_any n) chans (s, []) in
+          match vis with
           | [] => (s', [])
-          | _ => (s', [Msg (hostmask u) str_PART [join [COMMA] seen]])
+          | _ => (s', [Msg (hostmask u) str_PART [join [COMMA] vis]])
           end
       end
   | AKick k c victims =>
-      match find_user k (s_users s), find_chan c (s_chans s) with
+      match idict_get k (s_users s), idict_get c (s_chans s) with
       | Some u, Some ch =>
-          let vs := filter (fun v => is_member v ch) victims in
+          let vs := filter (fun v => is_member v ch && negb (mem COMMA v)) victims in
           if is_member k ch && nonempty (join [COMMA] vs) then
-            let ch' := fold_left (fun ch v => del_member v ch) vs ch in
-            (set_chans_s s (gc (put_chan ch' (s_chans s))),
+            (set_chans_s s (idict_upd c (fun ch => fold_left (fun ch v => del_member v ch) vs ch) (s_chans s)),
              if is_member (s_me s) ch then [Msg (hostmask u) str_KICK [c; join [COMMA] vs; [120]]] else [])
           else (s, [])
       | _, _ => (s, [])
       end
   | AQuit n =>
-      match find_user n (s_users s) with
+      match idict_get n (s_users s) with
       | None => (s, [])
       | Some u =>
           if feq n (s_me s) then (s, []) else
-          (Srv (s_me s) (filter (fun x => negb (feq n (su_nick x))) (s_users s))
-               (gc (map (del_member n) (s_chans s))),
+          (Srv (s_me s) (idict_del n (s_users s)) (vmap (del_member n) (s_chans s)),
            if visible s n then [Msg (hostmask u) str_QUIT [[98; 121; 101]]] else [])
       end
   | ANick n new =>
-      match find_user n (s_users s) with
+      match idict_get n (s_users s) with
       | None => (s, [])
       | Some u =>
-          let free := match find_user new (s_users s) with Some _ => feq n new | None => true end in
-          if valid_name new && free && negb (seq_eqb (su_nick u) new) then
+          let free := match idict_get new (s_users s) with Some _ => feq n new | None => true end in
+          if valid_nick new && free && negb (seq_eqb (su_nick u) new) then
             (Srv (if feq n (s_me s) then new else s_me s)
-                 (map (fun x => if feq n (su_nick x) then SUser new (su_user x) (su_host x) else x) (s_users s))
-                 (map (ren_member n new) (s_chans s)),
+                 (rename_user n new (s_users s))
+                 (vmap (ren_member n new) (s_chans s)),
              if feq n (s_me s) || visible s n then [Msg (hostmask u) str_NICK [new]] else [])
           else (s, [])
       end
   | AMode k c chgs =>
-      match find_user k (s_users s), find_chan c (s_chans s) with
+      match idict_get k (s_users s), idict_get c (s_chans s) with
       | Some u, Some ch =>
-          if is_member k ch && nonempty (mode_string chgs None) && forallb (mode_ok ch) chgs then
-            let ch' := fold_left apply_mode chgs ch in
-            (set_chans_s s (put_chan ch' (s_chans s)),
+          if C03.Model.isChannel c && is_member k ch && nonempty (mode_string chgs None) && forallb (mode_ok ch) chgs then
+            (set_chans_s s (idict_upd c (fun ch => fold_left apply_mode chgs ch) (s_chans s)),
              if is_member (s_me s) ch then
-               [Msg (hostmask u) str_MODE
-                    (c :: mode_string chgs None ::
-                       flat_map (fun g => match snd g with Some a => [a] | None => [] end) chgs)]
+               [Msg (hostmask u) str_MODE (c :: mode_string chgs None :: mode_params chgs)]
              else [])
           else (s, [])
       | _, _ => (s, [])
       end
   | ATopic k c t =>
-      match find_user k (s_users s), find_chan c (s_chans s) with
+      match idict_get k (s_users s), idict_get c (s_chans s) with
       | Some u, Some ch =>
           if is_member k ch then
-            (set_chans_s s (put_chan (SChan (sc_name ch) (sc_members ch) t (sc_modes ch) (sc_bans ch) (sc_created ch))
-                                     (s_chans s)),
+            (set_chans_s s (idict_upd c (fun ch => set_topic_s ch t) (s_chans s)),
              if is_member (s_me s) ch then [Msg (hostmask u) str_TOPIC [c; t]] else [])
           else (s, [])
       | _, _ => (s, [])
       end
   | AChghost n u' h' =>
-      match find_user n (s_users s) with
+      match idict_get n (s_users s) with
       | None => (s, [])
       | Some u =>
-          if valid_name u' && valid_name h' then
-            (Srv (s_me s) (map (fun x => if feq n (su_nick x) then SUser (su_nick x) u' h' else x) (s_users s))
-                 (s_chans s),
+          if valid_uh u' && valid_uh h' then
+            (Srv (s_me s) (idict_upd n (fun x => SUser (su_nick x) u' h') (s_users s)) (s_chans s),
              if feq n (s_me s) || visible s n then [Msg (hostmask u) str_CHGHOST [u'; h']] else [])
           else (s, [])
       end
   | ANames c mp' uh' =>
-      match find_chan c (s_chans s) with
-      | Some ch => (s, if is_member (s_me s) ch
-                       then [msg_names s ch mp' uh'; Msg SERVER str_366 [s_me s; sc_name ch; [101; 110; 100]]]
-                       else [])
+      match idict_get c (s_chans s) with
+      | Some ch => (s, if is_member (s_me s) ch then [msg_names s c ch mp' uh'; msg_endnames s c] else [])
       | None => (s, [])
       end
   | AWho c =>
-      match find_chan c (s_chans s) with
-      | Some ch => (s, if is_member (s_me s) ch then msgs_who s ch else [])
+      match idict_get c (s_chans s) with
+      | Some ch => (s, if is_member (s_me s) ch then msgs_who s c ch else [])
       | None => (s, [])
       end
   | AReset =>
       (* the bot's connection drops and it reconnects under its configured nick *)
-      let free := match find_user nick0 (s_users s) with Some _ => feq nick0 (s_me s) | None => true end in
+      let free := match idict_get nick0 (s_users s) with Some _ => feq nick0 (s_me s) | None => true end in
       if free then
-        (Srv nick0
-             (map (fun x => if feq (s_me s) (su_nick x) then SUser nick0 (su_user x) (su_host x) else x) (s_users s))
-             (gc (map (del_member (s_me s)) (s_chans s))),
+        (Srv nick0 (rename_user (s_me s) nick0 (s_users s)) (vmap (del_member (s_me s)) (s_chans s)),
          [Msg [] RESET []])
       else (s, [])
   end.
 
-(* ---- what the bot is entitled to know ---- *)
+(* ---- what the bot is entitled to know (every entry is the answer of a lookup) ---- *)
 Record vchan := VChan { v_name : str; v_users : list str; v_ops : list str; v_halfops : list str;
                         v_voices : list str; v_bans : list str; v_topic : str;
                         v_modes : list (N * option str); v_created : N }.
-Definition view_chan (ch : schan) : vchan :=
-  let nicks := fun (p : smember -> bool) => map sm_nick (filter p (sc_members ch)) in
-  VChan (sc_name ch) (nicks (fun _ => true)) (nicks sm_o) (nicks sm_h) (nicks sm_v)
-        (sc_bans ch) (sc_topic ch) (sc_modes ch) (sc_created ch).
-Definition view_chans (s : srv) : list vchan := map view_chan (my_chans s).
+Definition view_chan (c : str) (ch : schan) : vchan :=
+  let keys := map fst (sc_members ch) in
+  VChan c keys (filter (fun x => mflag f_o x ch) keys) (filter (fun x => mflag f_h x ch) keys)
+        (filter (fun x => mflag f_v x ch) keys)
+        (sc_bans ch) (sc_topic ch) (map (fun f => (f, mode_value ch f)) (map fst (sc_modes ch))) (sc_created ch).
+Definition view_chans (s : srv) : list vchan :=
+  flat_map (fun kc => match idict_get (fst kc) (s_chans s) with
+                      | Some ch => if is_member (s_me s) ch then [view_chan (fst kc) ch] else []
+                      | None => [] end) (s_chans s).
 (* hostmasks of the users the bot can see (itself included once it is on a channel) *)
 Definition view_hosts (s : srv) : list (str * str) :=
-  map (fun u => (su_nick u, hostmask u)) (filter (fun u => visible s (su_nick u)) (s_users s)).
+  flat_map (fun kv => match idict_get (fst kv) (s_users s) with
+                      | Some u => if visible s (fst kv) then [(su_nick u, hostmask u)] else []
+                      | None => [] end) (s_users s).
